@@ -33,7 +33,7 @@ FILES = {
     "verde/trend.py": ["C03", "C01", "C02", "C04", "C20"],
     "verde/chain.py": ["C06", "C01", "C20"],
     "verde/neighbors.py": ["C15", "C01", "C04", "C20"],
-    "verde/scipygridder.py": ["C03", "C01", "C04", "C20"],
+    "verde/scipygridder.py": ["C03", "C01", "C04", "C05", "C20"],
     "verde/blockreduce.py": ["C09", "C10", "C06", "C20"],
     "verde/model_selection.py": ["C11", "C12", "C20"],
     "verde/mask.py": ["C15", "C16", "C20"],
